@@ -355,7 +355,7 @@ func recvGrammar(e *Env) {
 		}
 	}
 	// (b) over a connection, through recv -> queue -> runLoop -> dispatch
-	s := startSession(e, ClientOpts{Nick: "me", Flood: true, Track: g.Pct(30)}, func(l *simnet.Link) { l.ChunkMode = 1 + g.Intn(3); l.Window = []int{0, 0, 0, 16, 64, 300}[g.Intn(6)] })
+	s := startSession(e, g.Knobs(ClientOpts{Nick: "me", Flood: true, Track: g.Pct(30)}), func(l *simnet.Link) { l.ChunkMode = 1 + g.Intn(3); l.Window = []int{0, 0, 0, 16, 64, 300}[g.Intn(6)] })
 	var seen []*client.Line
 	verbs := map[string]bool{}
 	for _, m := range msgs {
@@ -616,7 +616,7 @@ func recvAdversary(e *Env) {
 		opts.Caps = []string{"multi-prefix", "sasl"}
 	}
 	e.Notef("SplitLen=%d sasl=%v", opts.SplitLen, opts.Sasl != nil)
-	s := startSession(e, opts, func(l *simnet.Link) { l.ChunkMode = g.Intn(4); l.Window = []int{0, 0, 0, 16, 64, 300}[g.Intn(6)] })
+	s := startSession(e, g.Knobs(opts), func(l *simnet.Link) { l.ChunkMode = g.Intn(4); l.Window = []int{0, 0, 0, 16, 64, 300}[g.Intn(6)] })
 	var markers []int
 	s.c.HandleFunc("PRIVMSG", func(c *client.Conn, l *client.Line) {
 		var k int
